@@ -28,6 +28,37 @@ UNI_KEYS = ["clé", "ключ", "鍵", "k🔑", "nötë"]
 LOOKALIKES = [1, "1", 1.0, "1.0", True, "True", False, "False", 0, "0", 0.5, "0.5", -3, 1e-07, 12345678901234567890, "01", "1e3", 1000.0]
 
 
+# Families of strings that are *different* values but collide under a common non-injective sort / comparison key (casefold, strip,
+# unicode normalisation NFC/NFD/NFKC, numeric value, common prefix).  A canonical order of a set must separate them; an order computed
+# with such a key leaves them in the set's iteration order, which depends on the hash seed and on the insertion history.  Written with
+# escapes so that no editor can normalise them.
+TWIN_FAMILIES = [
+    ["Cdc2", "CDC2", "cdc2", "cDC2", "CdC2"],                                        # case
+    ["Promoter", "promoter", "PROMOTER", "pROMOTER"],                                # case (feature types)
+    ["stra\u00dfe", "STRASSE", "strasse", "Stra\u00dfe", "STRA\u1e9eE"],              # casefold-only
+    ["\u03c3\u03c2", "\u03a3\u03a3", "\u03c3\u03c3", "\u03a3\u03c2"],                    # Greek sigma forms (casefold equal)
+    ["pad", " pad", "pad ", " pad ", "\tpad", "pad\n"],                              # strip
+    ["\u00e9t\u00e9", "e\u0301te\u0301", "\u00e9te\u0301", "e\u0301t\u00e9"],          # NFC vs NFD
+    ["\u00c5", "A\u030a", "\u212b"],                                                # NFC / NFD / compatibility (Angstrom sign)
+    ["\ufb01n", "fin", "FIN", "Fin"],                                                # ligature: NFKC and casefold
+    ["\uff21\uff22", "AB", "ab", "\uff41\uff42"],                                    # full-width: NFKC
+    ["1", "01", "1.0", "1e0", "+1", "1.00", " 1", "001"],                            # numeric value 1
+    ["10", "1e1", "10.0", "010", "1_0"],                                             # numeric value 10
+    ["0", "-0", "0.0", "00", "0e0"],                                                 # numeric value 0
+    ["True", "true", "TRUE", "tRUE"],                                                # boolean words
+    ["a", "ab", "abc", "abcd", "abcde"],                                             # prefixes
+    ["gene", "gene1", "gene10", "gene_1", "gene-1"],                                 # prefixes / natural sort
+    ["x", "x.", "x..", "x ", "x\u200b"],                                             # trailing punctuation / zero-width
+]
+
+
+def twin_values(rng, kmin=3):
+    """>= kmin members of one family, in random order (so that a set built from them really has several possible iteration orders)."""
+    fam = rng.choice(TWIN_FAMILIES)
+    k = rng.randint(min(kmin, len(fam)), len(fam))
+    return rng.sample(fam, k)
+
+
 def _uuid(rng):
     return str(uuid.UUID(int=rng.getrandbits(128)))
 
@@ -57,6 +88,9 @@ def rand_quals(rng, nmax=4, hostile=False):
                 vals.append("w" + str(rng.randint(0, 9)))
         if rng.random() < 0.15:
             vals.append(vals[0])  # duplicate value
+        if rng.random() < 0.4:
+            vals += twin_values(rng)  # >= 3 values that collide under casefold / strip / normalisation / numeric value / prefix keys
+            rng.shuffle(vals)
         out[k] = vals
     return out
 
@@ -93,6 +127,8 @@ def decorate_feature(rng, f, hostile, explicit):
         types.append(rng.choice(UNICODE_WORDS[:12]))
     if rng.random() < 0.3:
         types += rng.sample(["promoter", "enhancer", "site", "binding", "repeat", "CpG", "TATA_box", "misc"], rng.randint(1, 4))
+    if rng.random() < 0.35:
+        types += twin_values(rng)
     f["feature_types"] = sorted(set(types))
     if rng.random() < 0.15:
         f["feature_id"] = None
@@ -170,6 +206,16 @@ def rand_case(rng, glen=None, shape=None):
         elif rng.random() < 0.2:
             for t in g["transcripts"]:
                 t["is_primary_tx"] = False
+    if rng.random() < 0.3:
+        # identifier-like strings of siblings that are twins of each other
+        fam = rng.choice(TWIN_FAMILIES)
+        for k, g in enumerate(coll["genes"]):
+            g["gene_symbol"] = fam[k % len(fam)]
+            for j, t in enumerate(g["transcripts"]):
+                t["transcript_symbol"] = fam[(k + j + 1) % len(fam)]
+        for k, fc in enumerate(coll["fcolls"]):
+            for j, f in enumerate(fc["features"]):
+                f["feature_name"] = fam[(k + j) % len(fam)]
     for fc in coll["fcolls"]:
         fc["qualifiers"] = rand_quals(rng, hostile=hostile)
         fc["sequence_guid"] = _uuid(rng) if rng.random() < 0.3 else None
